@@ -421,4 +421,12 @@ def rule_i(ctx: Ctx) -> None:
                 'comparison with `self.schema` (document identity); a comparison of `.maps` with `self.maps` (schema-set identity) is allowed.')
 
 
-RULES = [rule_a, rule_b, rule_c, rule_d, rule_e, rule_f, rule_g, rule_h, rule_i]
+def rule_j(ctx: Ctx) -> None:
+    """Two spellings of a schemaLocation that name one file must be recognised as one document: the already-loaded test of XsdGlobals
+    (get_schema / register) compares normalised URLs, so normalize_url has to be canonical - dot segments removed on every local-path
+    exit - or the file is loaded twice and its globals collide.  C12.f body."""
+    from .c12 import rule_f as canonical_urls
+    canonical_urls(ctx, 'C09.j')
+
+
+RULES = [rule_a, rule_b, rule_c, rule_d, rule_e, rule_f, rule_g, rule_h, rule_i, rule_j]
